@@ -496,7 +496,9 @@ def run(scen):
     w = W.World(scen)
     W.set_current(w)
     programs = scen.get('threads') or []
-    chooser = make_chooser(scen.get('schedule') or {}, len(programs) + 1)
+    second = scen.get('second')
+    chooser = make_chooser(scen.get('schedule') or {},
+                           len(programs) + 1 + (1 if second else 0))
     sched = Scheduler(w, chooser, scen.get('max_steps', 20000))
     sched.stall = scen.get('stall')
     w.sched = sched
@@ -535,9 +537,55 @@ def run(scen):
                 tcalls.append(rec)
         return body
 
+    # an optional second WebSocket object with its own event-loop thread
+    # (scen['second'] = {'url', 'ws', 'connect'}; its connection specs come
+    # from scen['conns_by_host']).  It connects first, sequentially, so that
+    # w.socks[-1] stays the socket of the main object.
+    gen2 = [None]
+    trace.events2 = []
+    trace.finished2 = False
+    trace.escaped2 = None
+
+    def rec2(event):
+        rec = netsim.EvRec()
+        rec.seq = w.next_seq()
+        rec.t = w.now
+        rec.name = event.name
+        rec.obj = event
+        rec.snap = netsim.snapshot(event)
+        rec.index = len(trace.events2)
+        rec.conn = w.conn_index
+        rec.wire_len = 0
+        rec.open_socks = sum(1 for s_ in w.socks if not s_.closed)
+        trace.events2.append(rec)
+
+    def loop2_body(t):
+        try:
+            for event in gen2[0]:
+                rec2(event)
+                if len(trace.events2) > scen.get('max_events', 2000):
+                    raise W.SimHang('event budget exhausted (second object)')
+            trace.finished2 = True
+        except W.SimHang as e:
+            trace.hang = trace.hang or str(e)
+        except W.SimAbort:
+            raise
+        except Exception as e:
+            trace.escaped2 = (type(e).__name__, str(e)[:200])
+
+    loop2 = [None]
+
     def loop_body(t):
         counts = {}
         started = [False]
+        if second:
+            ws2 = netsim._make_ws(second)
+            trace.ws2 = ws2
+            gen2[0] = ws2.connect(**dict(second.get('connect') or {}))
+            for event in gen2[0]:
+                rec2(event)
+                if event.name in ('poll', 'disconnected', 'connect_fail'):
+                    break
         gen = ws.connect(**ckw)
         idx = 0
         try:
@@ -565,6 +613,8 @@ def run(scen):
                     sched.active = True
                     for th in senders:
                         sched.start_thread(th)
+                    if loop2[0] is not None:
+                        sched.start_thread(loop2[0])
                     sched.yield_point('spawn')
                 elif started[0]:
                     r = app.react(rec)
@@ -586,6 +636,8 @@ def run(scen):
     loop = sched.add_thread('loop', loop_body)
     for prog in programs:
         senders.append(sched.add_thread('sender', sender(prog)))
+    if second:
+        loop2[0] = sched.add_thread('loop2', loop2_body)
     sched.start_thread(loop)
     try:
         sched.run_all(loop)
